@@ -730,7 +730,7 @@ func Generate(seed int64, index int, opt Options) *Case {
 		it := Interface{Name: intfNames[i]}
 		if i > 0 || rng.Intn(5) == 0 {
 			if i == 0 {
-				it.Name = intfNames[1+rng.Intn(4)]
+				it.Name = "First" + intfNames[1+rng.Intn(4)]
 			}
 			it.Marked = true
 		}
@@ -947,4 +947,28 @@ func GenerateMalformed(seed int64, index int, opt Options) *Case {
 		opt.Malformed = 0.5
 	}
 	return Generate(seed, index, opt)
+}
+
+// GenerateSelection varies which interfaces are marked and adds sibling files with marked interfaces (C17).
+func GenerateSelection(seed int64, index int, opt Options) *Case {
+	c := Generate(seed, index, opt)
+	rng := rand.New(rand.NewSource(seed*7919 + int64(index)))
+	if rng.Intn(2) == 0 {
+		c.Files["pk/sibling.go"] = "//go:build convergen\n\npackage pk\n\n// :convergen\ntype SiblingMarked interface {\n\tSibConv(*Leaf) *Leaf2\n}\n"
+		c.Features["sibling-marked-interface"]++
+	}
+	if rng.Intn(6) == 0 {
+		// no converter interface in the input file, but one named Convergen in a sibling file
+		for i := range c.Interfaces {
+			c.Interfaces[i].Marked = false
+			if c.Interfaces[i].Name == "Convergen" {
+				c.Interfaces[i].Name = "NotAConverter"
+			}
+			c.Interfaces[i].Notations = nil
+		}
+		c.Files["pk/sibling2.go"] = "//go:build convergen\n\npackage pk\n\ntype Convergen interface {\n\tSib2(*Leaf) *Leaf2\n}\n"
+		c.Features["converter-only-in-sibling"]++
+		c.Files[c.SetupPath] = renderSetup(rng, c, opt)
+	}
+	return c
 }
